@@ -196,7 +196,9 @@ META.update({
     "C16": {
         "text": "TimeArith.tla: instants as mixed-radix triples, the proleptic Gregorian calendar and NaT-absorbing operators; "
                 "CoarserIsFloor, FinerAndBack, TruncTowardPast, CalendarRoundTrip and the NaT laws checked by TLC on a grid "
-                "with range limits, pre-epoch non-divisible instants and leap days." + ENUM,
+                "with range limits, pre-epoch non-divisible instants, leap days and far years; TimeProof.tla proves the unit-change "
+                "laws (truncation toward the past, composition to the coarser unit) for EVERY instant with the TLA+ proof "
+                "system." + ENUM,
         "note": "TLC trusted; the triple <-> i64 representation map of the harness and chrono (the reference calendar the "
                 "property names) are trusted base.",
         "design": "DESIGN.md section 6 C16",
@@ -204,7 +206,9 @@ META.update({
     "C17": {
         "text": "TimeArith.tla: AddSubInverse, DiffAddsBack, GroupAxioms, ScaleDistributes, end-of-month clamping, "
                 "TruncIsGreatestMultiple, MonthTruncIsPeriodStart, HmsRoundTrip checked by TLC over instants at month ends / "
-                "leap days / year ends / pre-epoch, durations of every fixed unit with both signs, month counts -1200..1200." + ENUM,
+                "leap days / year ends / pre-epoch, durations of every fixed unit with both signs, month counts -1200..1200; "
+                "TimeProof.tla proves the month-free inverse laws and the group axioms for EVERY instant and duration with the "
+                "TLA+ proof system (217 obligations)." + ENUM,
         "note": "TLC trusted; representation map and chrono trusted; durations added to a date-time are whole units of it.",
         "design": "DESIGN.md section 6 C17",
     },
